@@ -67,7 +67,7 @@ func checkC18(c *Ctx, r *Report) {
 	r.fn("cmd.parseArgs", "cmd.run", "cmd.main", "cmd.die", "cmd.open")
 
 	// ---- flags: one iteration of the argument loop per class of word (E-CLI model)
-	r.rule("flags", 12, "parseArgs, one iteration of its argument loop interpreted per class of word: each documented spelling turns on exactly its field and goes on; a value flag turns on its field and, with =F, stores F (any other suffix is a usage error); '-h' returns with the help function set and no error; '--' appends the remaining arguments to the file words and ends the loop; an unknown '-x' / '--xyz' is a usage error; a lone '-' and other words are appended to the file words; the usage string names every flag")
+	r.rule("flags", 12, "parseArgs, one iteration of its argument loop interpreted per class of word: each documented spelling turns on exactly its field and goes on; a value flag turns on its field and, with =F, stores F (any other suffix is a usage error); '-h' returns with the help function set (or, when the help field is a bool, with it true) and no error; '--' appends the remaining arguments to the file words and ends the loop; an unknown '-x' / '--xyz' is a usage error; a lone '-' and other words are appended to the file words; the usage string names every flag")
 	outcome := func(word string) ([]argOutcome, string) {
 		outs, und := c.argsOutcomes(pa, word)
 		var ss []string
@@ -279,7 +279,7 @@ func checkC18(c *Ctx, r *Report) {
 	r.check(okResult, "wiring", "result", "if a.result { Printf(result); Printf(binding) }", "under the result flag run must print the blocks and the binding (two prints to standard output), and nothing without it: "+resDesc, c.pos(run.Pos()))
 
 	// ---- exit codes and streams
-	r.rule("exit-codes", 4, "main: usage error -> die(2), help -> usage on stdout and exit 0, run error -> die(1); die prints the error to standard error and exits with its argument")
+	r.rule("exit-codes", 4, "main: usage error -> die(2), help -> the help function called (a bool help field: the usage constant printed on stdout by main) and exit 0 with run not called, run error -> die(1); die prints the error to standard error and exits with its argument")
 	{
 		paOK := Value{K: vTuple, Tup: []Value{tagV("pa", nil), tagV("nil", nil)}}
 		paErr := Value{K: vTuple, Tup: []Value{tagV("pa", nil), tagV("errv", "usage")}}
